@@ -516,6 +516,7 @@ func effectiveOps(p pre) []Op {
 func TestCheck(t *testing.T) {
 	env := report.FromEnv()
 	rep := env.New("C04")
+	defer rep.Guard(env)
 	rep.Assumptions = []string{
 		"crash model: every file-system call issued so far took full effect (kill), a write may have persisted only a prefix (torn), and data not yet fsynced may vanish while renames already issued persist (power loss)",
 		"leftover temporary files after a crash are not a violation (the property does not mention them)",
